@@ -6,7 +6,9 @@ PROP = {
              "random keys x option sets (workchain -1,0,1,127,-128,128,255,256,-129,2^31,..., sub-wallet ids incl. the default 698983191 and "
              "2^32-1, network ids -239,-3,0,+-1,int32 bounds): wallet.New(...).GetAddress, GenerateWalletAddress and the hash of "
              "GenerateStateInit's cell vs the extracted model (code BOCs translated from models.go, parsed by the model parser, Gallina "
-             "SHA-256); public keys of 0/1/31/33/64 bytes; pairs differing in one option; mnemonics through "
+             "SHA-256), plus GetCodeHashByVer vs the model's code hash with GetVerByCodeHash / GetWalletVersion (active account running the "
+             "code, deploying message carrying it) giving the version back, and GetW5R1ExtensionsList listing exactly the installed "
+             "extensions of well-formed data; public keys of 0/1/31/33/64 bytes; pairs differing in one option; mnemonics through "
              "DefaultWalletFromSeed / SeedToPrivateKey against an INDEPENDENT implementation of the TON derivation in the harness "
              "(HMAC-SHA512 entropy, own PBKDF2 loop; version byte and Ed25519 seed handed to the model as columns): 24-word valid "
              "phrases, searched 12- and 13-word valid phrases, 11 words with version byte 0 (rejected), 11 words + trailing space (12 "
@@ -21,7 +23,8 @@ PROP = {
              "order) vs the model's decode_data; (2c) histories of 4..9 calls on ONE Wallet object (kind c15.history), every version: "
              "StateInit(), GetAddress(), NextMessageParams on none / uninit / frozen / active accounts, interleaved with the caller "
              "overwriting in place what it was handed (data / code / special / library of the returned *StateInit, the Init of "
-             "NextMsgParams, its copy of the address): every answer vs the model and vs a fresh wallet; (3) SendV2 on wallets created "
+             "NextMsgParams, its copy of the address) and REUSING THE PRIVATE-KEY BUFFER it passed to New (refilled with another key or "
+             "wiped; the library must not have written to it): every answer vs the model and vs a fresh wallet of the original key; (3) SendV2 on wallets created "
              "with / without WithMessageLifetime against a scripted blockchain interface: account state or "
              "state error x 0..3 messages (sometimes max+1) x send error x waiting 0 / 200 ms x seven poll histories (advance at the first, "
              "second, fourth poll, after errors, never, always error, lower-then-equal): result and the projection of the captured message "
@@ -46,8 +49,8 @@ PROP = {
                     "mnemonic is accepted iff it has >= 12 space-separated parts and version byte 0 (C15_seed_accepted_spec); SendV2 signs "
                     "expiry = now + the configured lifetime (C15_api_send_v2_expiry, clock a parameter); a Wallet object keeps nothing "
                     "between calls: after any history, incl. the caller modifying returned values, every answer is that of a fresh "
-                    "wallet (C15_history_independent; the memoising design that hands its cache out by pointer is refuted in "
-                    "Proofs/WalletHistory.v). coq/Properties/C15_gen.v re-checks on today's source that every accepted version's code BOC parses "
+                    "wallet (C15_history_independent; the memoising design that hands its cache out by pointer and the design that keeps a view of the "
+                    "caller's key buffer as the public key are refuted in Proofs/WalletHistory.v). coq/Properties/C15_gen.v re-checks on today's source that every accepted version's code BOC parses "
                     "to one root, that the twelve code hashes are pairwise distinct (hence codes_distinct), the constants and the Version "
                     "numbering."),
     'assumptions': ["address_injective assumes the cell hash injective on state-init cells (idealisation of SHA-256, explicit hypothesis)",
@@ -56,7 +59,8 @@ PROP = {
                     "PBKDF2/HMAC-SHA512 of the mnemonic derivation are not computed in Coq: the version byte and the Ed25519 seed come from an independent Go implementation of the specification (checked equal to wallet/seed.go on every case); the model decides acceptance (>= 12 parts, version byte 0) and builds the address",
                     "V1R1..V2R2 have addresses but NextMessageParams/createSignedMsgBodyCell panic(\"implement me\") (modelled as Panic, observation)",
                     "GenerateStateInit returns the zero StateInit and a nil error for an unsupported version (modelled as is, observation)",
-                    "active-account data with a non-empty plugin/extension dictionary containing exotic cells is outside the model"],
+                    "active-account data with a non-empty plugin/extension dictionary containing exotic cells is outside the model",
+                    "the stored PRIVATE key aliases the caller's slice (w.key = key) at baseline: signatures made after the caller reuses its key buffer are outside the history check, which speaks about address, state-init and NextMessageParams; NewWalletV5R1/NewWalletV5Beta (exported constructors of unexported types) keep the caller's public-key slice by design and are not part of the history check"],
 }
 
 META = {
